@@ -577,6 +577,9 @@ def summarise(prop, tier, seed, obls, results, wall):
                                reason=(r["detail"] or {}).get("reason"))
                           for r in inc],
             known_findings_seen=sorted(known_hits),
+            slowest=[dict(obligation=r["obligation"], shape=r["shape"],
+                          wall_s=round(r["wall_s"], 1), paths=r["paths"])
+                     for r in sorted(results, key=lambda r: -r["wall_s"])[:12]],
             total_paths=sum(r["paths"] for r in results),
             solver_s=round(sum(r["solver_s"] for r in results), 2),
             exhaustive=False))
